@@ -84,6 +84,9 @@ def rand_cfg(rng, seed=None):
          "fb_conn": rng.choice([1.0, 0.5]), "sr": rng.choice([None, 0.9, 0.5]),
          "input_scaling": rng.choice([1.0, 0.5]), "bias_scaling": rng.choice([1.0, 0.5]),
          "fb_scaling": rng.choice([1.0, 0.5]), "lr": rng.choice([1.0, 0.5])}
+    # node class family: "R" = Reservoir, also built through the ESN keyword route (ESN(units=..., seed=...).reservoir);
+    # "IP" = IPReservoir (same seed plumbing, W drawn by mat_gen.uniform, forward_external)
+    c["family"] = "IP" if rng.random() < 0.25 else "R"
     # feedback attached late: the reservoir first runs on its own (noisy warm-up), then  res <<= readout ; initialize_feedback
     c["fb_late"] = bool(c["fb"] and rng.random() < 0.6)
     if c["fb_late"] and rng.random() < 0.85 and c["g_in"] == 0.0 and c["g_rc"] == 0.0:
@@ -153,7 +156,7 @@ def junk_op(rng, st):
     if r < 0.66:
         sd = rng.choice([["none"], ["none"], ["int", rng.choice(SEEDS)]] + ([["gen", rng.choice(st["free"])]] if st["free"] else []))
         cfg = rand_cfg(rng, seed=sd)
-        return instantiate(own_script(rng, cfg), st)
+        return instantiate(own_script(rng, cfg), st, rng)
     if r < 0.80:
         sd = rng.choice([["none"], ["none"], ["int", rng.choice(SEEDS)]] + ([["gen", rng.choice(st["free"])]] if st["free"] else []))
         if rng.random() < 0.5:
@@ -167,8 +170,9 @@ def junk_op(rng, st):
             {"op": "skfit", "i": st["sks"] - 1, "data": rng.randint(0, 1)}]
 
 
-def instantiate(script, st):
-    """Give a fresh node id (and a fresh generator for 'freshgen' seeds) to a copy of an own-script."""
+def instantiate(script, st, rng=None):
+    """Give a fresh node id (and a fresh generator for 'freshgen' seeds) to a copy of an own-script; pick the class the
+    copy is built with (copies of a family-"R" script are interchangeably Reservoir(...) and ESN(...).reservoir)."""
     i = st["nodes"]
     st["nodes"] += 1
     out = []
@@ -182,6 +186,12 @@ def instantiate(script, st):
                 out.append({"op": "newgen", "g": g, "s": cfg["seed"][1]})
                 cfg["seed"] = ["gen", g]
             o["cfg"] = cfg
+            if cfg.get("family") == "IP":
+                o["klass"] = "IPReservoir"
+            elif rng is not None and not cfg.get("fb_late") and rng.random() < 0.4:
+                o["klass"] = "ESN"
+            else:
+                o["klass"] = "Reservoir"
         out.append(o)
     return out
 
@@ -201,7 +211,7 @@ def gen_probe(rng, idx):
     rows, cols = rng.randint(1, 4), rng.randint(1, 4)
     hist = []
     for variant in (script, norun):
-        ops = instantiate(variant, st)
+        ops = instantiate(variant, st, rng)
         if shared:
             g = [o["g"] for o in ops if o["op"] == "newgen"][0]
             hist += ops + [{"op": "gendraw", "g": g, "rows": rows, "cols": cols}]
@@ -222,7 +232,7 @@ def gen_history(rng, idx, sk=True):
     copies = []
     vary = bool(cfg.get("fb_late") and cfg["seed"][0] == "int" and rng.random() < 0.7)
     for k in range(ncopies):
-        ops = instantiate(vary_warmup(rng, script) if (vary and k > 0) else script, st)
+        ops = instantiate(vary_warmup(rng, script) if (vary and k > 0) else script, st, rng)
         if cfg["seed"][0] == "none":
             ops = [{"op": "set_seed", "s": 3}] + ops       # an unseeded protagonist lives under a global seed
         copies.append(ops)
@@ -231,7 +241,7 @@ def gen_history(rng, idx, sk=True):
         s2 = rng.choice([s for s in SEEDS if s != (3 if cfg["seed"][0] == "none" else cfg["seed"][1])])
         kind = cfg["seed"][0] if cfg["seed"][0] != "none" else "int"
         twin = [dict(o, cfg=dict(o["cfg"], seed=[kind, s2])) if o["op"] == "construct" else o for o in script]
-        copies.append(instantiate(twin, st))
+        copies.append(instantiate(twin, st, rng))
     junk = []
     for _ in range(rng.randint(2, 7)):
         j = junk_op(rng, st)
@@ -279,12 +289,12 @@ def sk_data(d):
 def run_history(hist):
     """Run on the real library.  Returns the list of observations (node+1 | 0, tag, sha256)."""
     R = rpy()
-    from reservoirpy.nodes import Reservoir, Ridge
+    from reservoirpy.nodes import ESN, IPReservoir, Reservoir, Ridge
     from reservoirpy.utils.random import rand_generator
     import reservoirpy.datasets as ds
     from reservoirpy.datasets import _seed
     _seed._DEFAULT_SEED = 5555
-    gens, nodes, sks, obs = {}, {}, {}, []
+    gens, nodes, sks, obs, keep = {}, {}, {}, [], []
 
     def seed_of(sd):
         return None if sd[0] == "none" else (int(sd[1]) if sd[0] == "int" else gens[sd[1]])
@@ -309,12 +319,25 @@ def run_history(hist):
                 obs.append((0, 6, sha(gens[o["g"]].normal(size=(o["rows"], o["cols"])))))
             elif k == "construct":
                 c = o["cfg"]
-                n = Reservoir(c["units"], lr=c["lr"], sr=c["sr"], input_bias=c["bias"], noise_rc=c["g_rc"], noise_in=c["g_in"],
-                              noise_fb=c["g_fb"], noise_type=c["noise_type"], input_scaling=c["input_scaling"],
-                              bias_scaling=c["bias_scaling"], fb_scaling=c["fb_scaling"], input_connectivity=c["in_conn"],
-                              rc_connectivity=c["rc_conn"], fb_connectivity=c["fb_conn"], seed=seed_of(c["seed"]),
-                              name=uname("res"))
-                if c["fb"] and not c.get("fb_late"):
+                kw = dict(lr=c["lr"], sr=c["sr"], noise_rc=c["g_rc"], noise_in=c["g_in"],
+                          noise_fb=c["g_fb"], noise_type=c["noise_type"], input_scaling=c["input_scaling"],
+                          bias_scaling=c["bias_scaling"], fb_scaling=c["fb_scaling"], input_connectivity=c["in_conn"],
+                          rc_connectivity=c["rc_conn"], fb_connectivity=c["fb_conn"], seed=seed_of(c["seed"]))
+                klass = o.get("klass", "Reservoir")
+                if klass == "ESN":
+                    # the keyword route: ESN builds its Reservoir from **kwargs (seed included); the built reservoir is
+                    # then observed like any other one.  feedback=True wires readout -> reservoir.
+                    esn = ESN(units=c["units"], Win_bias=c["bias"], feedback=bool(c["fb"]), output_dim=FB_DIM, ridge=1e-4,
+                              name=uname("esn"), **kw)
+                    keep.append(esn)
+                    n = esn.reservoir
+                    if c["fb"]:
+                        esn.readout.initialize(np.zeros((1, c["units"])), np.zeros((1, FB_DIM)))
+                elif klass == "IPReservoir":
+                    n = IPReservoir(c["units"], input_bias=c["bias"], epochs=1, name=uname("ipres"), **kw)
+                else:
+                    n = Reservoir(c["units"], input_bias=c["bias"], name=uname("res"), **kw)
+                if c["fb"] and not c.get("fb_late") and klass != "ESN":
                     ro = Ridge(FB_DIM, name=uname("ro"))       # untrained readout: its output (the feedback) is always 0
                     ro.initialize(np.zeros((1, c["units"])), np.zeros((1, FB_DIM)))
                     n <<= ro
@@ -402,9 +425,9 @@ def to_coq(hist, obs):
             out.append("OConstruct %s (mkCfg %s %s %s %s %s %s %s %s %s %s %s %s %s)" % (
                 nat(o["i"]), nat(c["units"]), src(c["seed"]), coqbool(c["fb"] and not c.get("fb_late")), gain(c["g_in"]), gain(c["g_fb"]), gain(c["g_rc"]),
                 nat(idist(c["noise_type"])), coqbool(c["bias"]),
-                pair(iconn(c["rc_conn"]), ipost(("sr", c["sr"]))), pair(iconn(c["in_conn"]), ipost(("scale", c["input_scaling"]))),
+                pair(iconn((c.get("family", "R"), c["rc_conn"])), ipost(("sr", c["sr"]))), pair(iconn(c["in_conn"]), ipost(("scale", c["input_scaling"]))),
                 pair(iconn(c["in_conn"]), ipost(("scale", c["bias_scaling"]))), pair(iconn(c["fb_conn"]), ipost(("scale", c["fb_scaling"]))),
-                nat(ihyp((c["lr"],)))))
+                nat(ihyp((c["lr"], c.get("family", "R"))))))
         elif k == "attachfb":
             out.append("OAttachFb %s" % nat(o["i"]))
         elif k == "init":
@@ -512,6 +535,11 @@ def _judge_history(h):
     kind = {"int": "seeded", "freshgen": "generator", "none": "set_seed"}[h["proto_seed"][0]]
     if h.get("vary"):     # copies differ in their warm-up runs: the weights (not the trajectories) must coincide
         ref = [(t, x) for t, x in ref if t < 4]
+    klass_of = {o["i"]: o.get("klass", "Reservoir") for o in h["ops"] if o["op"] == "construct"}
+
+    def cls(k):       # class named in the key: the non-Reservoir one of the two compared copies
+        names = [c for c in (klass_of.get(k), klass_of.get(0)) if c and c != "Reservoir"]
+        return (names[0] + ":") if names else ""
     for k in range(1, h["ncopies"]):
         cur = per.get(k, [])
         if h.get("vary"):
@@ -519,9 +547,9 @@ def _judge_history(h):
             ref = sorted(ref)
         for (t1, h1), (t2, h2) in zip(ref, cur):
             if t1 != t2 or h1 != h2:
-                return _viol("%s:%s" % (kind, TAGN.get(t1, "?")),
-                             "%s of two reservoirs built with the same seed differs after unrelated operations" % TAGN.get(t1, "?"),
-                             h, h1, h2)
+                return _viol("%s:%s%s" % (kind, cls(k), TAGN.get(t1, "?")),
+                             "%s of two reservoirs (%s / %s) built with the same seed differs after unrelated operations"
+                             % (TAGN.get(t1, "?"), klass_of.get(0), klass_of.get(k)), h, h1, h2)
         if len(cur) != len(ref):
             return _viol("%s:count" % kind, "copies produced a different number of arrays", h, len(ref), len(cur))
     if h["has_twin"]:
@@ -597,6 +625,99 @@ def _script(s, with_sk):
             n.fit(Xs, Ys)
             out["sklearn:" + m] = sha(n.run(Xs))
     return out
+
+
+def _perturb(rng):
+    """Use / reseed the library-wide generator (and numpy's legacy one) between two builds."""
+    from reservoirpy.utils.random import rand_generator
+    if rng.random() < 0.5:
+        rpy().set_seed(rng.randint(0, 10 ** 6))
+    rand_generator().normal(size=rng.randint(1, 9))
+    np.random.rand(2)
+    _junk(rng)
+
+
+def _family_build(klass, seed):
+    """One reservoir of the class, with a feedback connection (so that Wfb is drawn) and the three noises; returns hashes."""
+    from reservoirpy.nodes import ESN, IPReservoir, Reservoir, Ridge
+    kw = dict(lr=0.5, sr=0.9, noise_rc=0.1, noise_in=0.1, noise_fb=0.1, rc_connectivity=1.0, input_connectivity=1.0,
+              fb_connectivity=1.0, seed=seed)
+    X = xdata(1, 5, 2)
+    if klass == "ESN":
+        esn = ESN(units=6, feedback=True, output_dim=FB_DIM, ridge=1e-4, name=uname("esn"), **kw)
+        n = esn.reservoir
+        esn.readout.initialize(np.zeros((1, 6)), np.zeros((1, FB_DIM)))
+    else:
+        n = (IPReservoir(6, epochs=1, name=uname("ip"), **kw) if klass == "IPReservoir" else Reservoir(6, name=uname("fam"), **kw))
+        ro = Ridge(FB_DIM, name=uname("ro"))
+        ro.initialize(np.zeros((1, 6)), np.zeros((1, FB_DIM)))
+        n <<= ro
+    n.initialize(X[:1])
+    n.initialize_feedback()
+    out = n.run(X)
+    return {"W": sha(n.W), "Win": sha(n.Win), "bias": sha(n.bias), "Wfb": sha(n.Wfb), "trajectory": sha(out)}
+
+
+def _curried_build(s):
+    from reservoirpy.mat_gen import bernoulli, normal
+    from reservoirpy.nodes import Reservoir, Ridge
+    n = Reservoir(6, W=normal(seed=s), Win=bernoulli(seed=s), bias=bernoulli(seed=s), Wfb=bernoulli(seed=s),
+                  rc_connectivity=1.0, input_connectivity=1.0, fb_connectivity=1.0, name=uname("cur"))
+    ro = Ridge(FB_DIM, name=uname("ro"))
+    ro.initialize(np.zeros((1, 6)), np.zeros((1, FB_DIM)))
+    n <<= ro
+    X = xdata(1, 3, 2)
+    n.initialize(X[:1])
+    n.initialize_feedback()
+    return {"W": sha(n.W), "Win": sha(n.Win), "bias": sha(n.bias), "Wfb": sha(n.Wfb)}
+
+
+def _name_counter_probe():
+    """Runs the probe in a fresh interpreter (the auto-name counters start at 0 there, whatever this process created)."""
+    import os
+    import subprocess
+    import sys
+    code = "import json; from props import c14; print('@@' + json.dumps(c14._name_counter_probe_inproc()))"
+    p = subprocess.run([sys.executable, "-W", "ignore", "-c", code], env=dict(os.environ), capture_output=True, text=True, timeout=300)
+    for ln in p.stdout.splitlines():
+        if ln.startswith("@@"):
+            return json.loads(ln[2:])
+    raise RuntimeError("name-counter probe failed: " + (p.stderr or p.stdout)[-800:])
+
+
+def _name_counter_probe_inproc():
+    """set_seed(7); r1, r2 = Reservoir(), Reservoir(); (Input() >> [r1, r2]).run(X) with AUTO names, once with the two auto names
+    straddling a power of ten (Reservoir-9 / Reservoir-10), once just after: the weights must be the same."""
+    R = rpy()
+    from reservoirpy.nodes import Input, Reservoir
+    X = xdata(0, 4, 1)
+
+    def script():
+        R.set_seed(7)
+        r1 = Reservoir(6, rc_connectivity=1.0, input_connectivity=1.0)
+        r2 = Reservoir(6, rc_connectivity=1.0, input_connectivity=1.0)
+        model = Input() >> [r1, r2]
+        model.run(X)
+        return {"names": [r1.name, r2.name], "order": [n.name for n in model.nodes], "r1.W": sha(r1.W), "r2.W": sha(r2.W)}
+    cur = getattr(Reservoir, "_factory_id", None)
+    if not isinstance(cur, int):
+        return None
+    target = 9
+    while target < cur + 1:
+        target = target * 10 + 9
+    if target - (cur + 1) > 5000:
+        return None
+    for _ in range(target - (cur + 1)):
+        Reservoir(2)                     # auto-named throw-away nodes: only advance the name counter (no draw)
+    a = script()                         # auto names ...9 and ...0 (one more digit)
+    b = script()                         # next two names
+    if (a["r1.W"], a["r2.W"]) != (b["r1.W"], b["r2.W"]):
+        return _viol("set_seed:init-order-depends-on-auto-name-counter",
+                     "the same script under rpy.set_seed(7) gives different weights depending on the auto-name counter: in "
+                     "Input() >> [r1, r2] the initialisation order of the two unseeded reservoirs (graphflow sorts edges by "
+                     "concatenated names) flips between %s and %s, so they swap their global-generator draws" % (a["names"], b["names"]),
+                     {"check": "name-counter", "first": a, "second": b}, [a["r1.W"], a["r2.W"]], [b["r1.W"], b["r2.W"]])
+    return None
 
 
 def oracle(ctx, scale=1):
@@ -716,6 +837,57 @@ def oracle(ctx, scale=1):
                     viol.append(_viol("dataset:%s-default" % key, "%s with the default seed depends on history" % key, sc))
                 if _bytes_equal(a, e):
                     viol.append(_viol("different:" + key, "%s: seeds %d and %d give the same series" % (key, s, s2), sc))
+        # (b2) every node class with a seed argument, global generator perturbed between the two builds
+        for rep in range(ctx.n(4, 30) * scale):
+            s = rng.choice(SEEDS)
+            s2 = rng.choice([x for x in SEEDS if x != s])
+            for klass in ("Reservoir", "IPReservoir", "ESN"):
+                sc = {"check": "family", "klass": klass, "seed": s}
+                pre = "" if klass == "Reservoir" else klass + ":"
+                a = _family_build(klass, s)
+                _perturb(rng)
+                b = _family_build(klass, s)
+                g1 = _family_build(klass, np.random.default_rng(s))
+                _perturb(rng)
+                g2 = _family_build(klass, np.random.default_rng(s))
+                d = _family_build(klass, s2)
+                ev += 5
+                for comp in a:
+                    if comp == "trajectory" and any(a[c] != b[c] or g1[c] != g2[c] for c in ("W", "Win", "bias", "Wfb")):
+                        continue
+                    if a[comp] != b[comp]:
+                        viol.append(_viol("seeded:%s%s" % (pre, comp), "two %s(seed=%d) differ in %s after the global generator was used/reseeded"
+                                          % (klass, s, comp), sc, a[comp], b[comp]))
+                    if g1[comp] != g2[comp]:
+                        viol.append(_viol("generator:%s%s" % (pre, comp), "two %s built with fresh default_rng(%d) differ in %s" % (klass, s, comp),
+                                          sc, g1[comp], g2[comp]))
+                for comp in ("W", "trajectory"):
+                    if a[comp] == d[comp]:
+                        viol.append(_viol("different:%s%s" % (pre, comp), "%s: seeds %d and %d give the same %s" % (klass, s, s2, comp), sc))
+                if klass == "ESN":      # the keyword route must build the reservoir Reservoir(seed=s) builds
+                    r = _family_build("Reservoir", s)
+                    ev += 1
+                    for comp in ("W", "Win", "bias", "Wfb"):
+                        if a[comp] != r[comp]:
+                            viol.append(_viol("esn-vs-reservoir:" + comp, "ESN(units=..., seed=%d).reservoir.%s differs from Reservoir(seed=%d).%s"
+                                              % (s, comp, s, comp), sc, r[comp], a[comp]))
+            # a seed partially applied to an initializer (W=normal(seed=3), ...) and no node seed
+            cu = []
+            for _ in range(2):
+                cu.append(_curried_build(s))
+                _perturb(rng)
+            ev += 2
+            for comp in cu[0]:
+                if cu[0][comp] != cu[1][comp]:
+                    viol.append(_viol("initializer:curried-seed-erased", "Reservoir(W=normal(seed=s), Win=bernoulli(seed=s), ...) without a node seed: "
+                                      "%s is drawn from the global generator (the curried seed is erased by seed=None)" % comp,
+                                      {"check": "curried", "seed": s, "component": comp}, cu[0][comp], cu[1][comp]))
+                    break
+        # (b3) auto-name counter: the same script under set_seed, with auto-named nodes, at two positions of the name counter
+        v = _name_counter_probe()
+        ev += 2
+        if v:
+            viol.append(v)
         # (c) set_seed scripts run twice (with junk in between), and with another seed
         for rep in range(ctx.n(3, 20) * scale):
             s = rng.choice(SEEDS)
@@ -746,6 +918,9 @@ def replay(payload):
     sc = payload.get("scenario") or {}
     if "ops" in sc:
         v = _judge_history(sc)
+        return {"violates": bool(v), "detail": v}
+    if sc.get("check") == "name-counter":
+        v = _name_counter_probe()
         return {"violates": bool(v), "detail": v}
     # fixed-shape checks: rerun the oracle and look for the same key
     res = oracle(core.Ctx("C14", "quick", 0))
